@@ -4,9 +4,12 @@ model (and, replayed by the harness, of the implementation).  Each is listed in 
 -/
 import WpModel.Model.PdfBoxes
 import WpModel.Model.PageSelectors
+import WpModel.Model.PageBoxes
+import WpModel.Model.PageGroups
+import WpModel.Model.PageState
 
 namespace Wp.Witness.C14
-open Wp Wp.PdfBoxes Wp.PageSel
+open Wp Wp.PdfBoxes Wp.PageSel Wp.PageBoxes Wp.PageGroups Wp.PageState
 
 /-- `@page { size: 100px 200px; bleed-top: 40px; bleed-bottom: 4px }`, zoom 1.
 The page content is drawn under `(x, y) ↦ (s·x, s·(H − y))`, so the CSS bleed area
@@ -27,5 +30,81 @@ theorem nth_oracle_exception_propagates :
     (match parsePageSelectors [.literal ":", .func "nth" [.other, .other] [.none, .none, .raised]] with
      | .raised => true
      | _ => false) = true := by decide
+
+/-- `@top-left` and `@top-right` with unbreakable content of min-content width 80 each on a side of
+100: the third flex-fit branch keeps both at their min-content size (css-page-3 §5.3.2 would shrink
+them below it), A spans `[0, 80]`, C `[20, 100]`: they overlap, and the hypothesis `avail > Σ outer
+min-content` of `C14.variable_dimension_two_fit` / `three_fit` cannot be dropped.  Deliberate upstream
+(tests/layout/test_page.py: "Use at least minimum widths, even if boxes overlap"). -/
+theorem margin_boxes_overlap :
+    (match computeVariable ⟨none, 0, 0, 0, 80, 100⟩ ⟨some 0, 0, 0, 0, 0, 0⟩ ⟨none, 0, 0, 0, 80, 100⟩ false 100 with
+     | .ok (ra, _, rc) => ra.inner == 80 && rc.inner == 80 && decide (ra.outer 0 + rc.outer 0 > 100)
+     | .error _ => false) = true := by decide +kernel
+
+/-- `<div>x</div><div style="page:a"> s0 | s1 | s2 | s3 </div>` (forced breaks between the four
+children): pages 2–5 form the page group `a` with indexes 0, 1, 2, 3 when all pages are made in one
+pass.  When a later pass of `make_all_pages` re-makes only the fourth page (its content shows
+`counter(page)`), `page_groups` restarts empty and the pages before it contribute nothing: the page gets
+index 0, so `@page :nth(3 of a)` no longer selects it (and `:nth(1 of a)` now does). -/
+theorem page_groups_lost_on_remake :
+    let wrapper : Elt := .mk "a" true true [.mk "a" true true [], .mk "a" true true [], .mk "a" true true [],
+      .mk "a" true true []]
+    let root : Elt := .mk "" true true [.mk "" true true [.mk "" true true [], wrapper]]
+    let at1 : RA := .dict (.cons 0 (.dict (.cons 1 .none .nil)) .nil)
+    let atj (j : Nat) : RA := .dict (.cons 0 (.dict (.cons 1 (.dict (.cons j .none .nil)) .nil)) .nil)
+    let pages (third : Bool) (others : Bool) : List (Bool × String × RA × Bool) :=
+      [(true, "", .none, others), (false, "a", at1, others), (false, "a", atj 1, others),
+       (false, "a", atj 2, third), (false, "a", atj 3, others)]
+    (match groupsPass root (pages true true) [] with
+     | .ok [_, _, _, some [g], _] => g.index == 2
+     | _ => false) = true ∧
+    (match groupsPass root (pages true false) [] with
+     | .ok [_, _, _, some [g], _] => g.index == 0
+     | _ => false) = true := by decide
+
+/-- `<div>x</div><div style="page:a; break-before:right">…</div>` after a right-hand first page: a blank
+left page is inserted, and `remake_page` calls `_update_page_groups` for it with the request of the page
+that follows: the group `a` is created on the blank page (index 0, but a blank page has no name, so no
+`of a` selector can match it) and the first page that really belongs to `a` gets index 1:
+`@page :nth(1 of a)` selects no page of the group at all. -/
+theorem page_group_index_counts_blank_page :
+    let root : Elt := .mk "" true true [.mk "" true true [.mk "" true true [], .mk "a" true true [.mk "a" true true []]]]
+    let at1 : RA := .dict (.cons 0 (.dict (.cons 1 .none .nil)) .nil)
+    (match updatePageGroups [] at1 false "a" root with            -- the blank page
+     | .ok [g] =>
+       g.index == 0 &&
+       (match updatePageGroups [g] at1 false "a" root with        -- the first page of the group
+        | .ok [g'] => g'.index == 1
+        | _ => false)
+     | _ => false) = true := by decide
+
+/-- A document that *starts* inside `<div style="page:a"> s0 | s1 | s2 </div>`: the first page is made
+with `next_page = {'break': 'any', 'page': 'a'}`, for which `_update_page_groups` returns at once — no
+group.  On the second page the group is created at the child the page resumes at (`{0: {0: {1: None}}}`),
+not at the element that carries `page: a`, so the third page does not include it: a new group again.
+Pages 1, 2, 3 of the element get groups `()`, `(a,0)`, `(a,0)`: `@page :nth(1 of a)` misses the first
+page and selects every later one. -/
+theorem page_group_not_started_on_first_page :
+    let wrapper : Elt := .mk "a" true true [.mk "a" true true [], .mk "a" true true [], .mk "a" true true []]
+    let root : Elt := .mk "" true true [.mk "" true true [wrapper]]
+    let atj (j : Nat) : RA := .dict (.cons 0 (.dict (.cons 0 (.dict (.cons j .none .nil)) .nil)) .nil)
+    (match updatePageGroups [] .none true "a" root with
+     | .ok [] =>
+       (match updatePageGroups [] (atj 1) false "a" root with
+        | .ok [g] =>
+          g.index == 0 &&
+          (match updatePageGroups [g] (atj 2) false "a" root with
+           | .ok [g'] => g'.index == 0
+           | _ => false)
+        | _ => false)
+     | _ => false) = true := by decide
+
+/-- `element(h, start)` on page 2, whose first content is the running element "bb" (page 1 assigned
+"aa"): the `start` test walks the first boxes of the page looking for a *`string-set`* declaration of the
+name — running elements are taken out of the page tree and declare no `string-set` — so the chain is all
+`false` and the value of the previous page is shown, although the page starts with the assignment. -/
+theorem element_start_ignores_running_elements :
+    getStringFor [(1, ["aa"]), (2, ["bb"])] 2 .start [false, false, false, false, false] = .ok (some "aa") := by
+  simp [getStringFor, storeGet, searchBack]
 
 end Wp.Witness.C14
